@@ -10,6 +10,7 @@ CONSTANTS
   Heights = {0}
   MaxCRound = 1
   Cutoff = 1
+  InstCap = 2
 INVARIANT OncePerArming
 INVARIANT OnlyLatest
 INVARIANT NeverEarly
